@@ -43,7 +43,7 @@ Example C04_example :
 Proof. vm_compute. split; reflexivity. Qed.
 
 (* ---- the interleaving level (ConcModel.v): Prefetcher is the identity under EVERY schedule ---- *)
-From PD Require ConcModel ConcInv ConcLive ConcOwner ConcSnap ConcPM ConcPMU.
+From PD Require ConcModel ConcInv ConcLive ConcOwner ConcSnap ConcPM ConcPMU ConcProg.
 
 (* For the Prefetcher (_SingleThreadedMapper), any prefetch_factor / snapshot_frequency / source (failing or not), any
    consumer script incl. reset and reset(loaded state), along EVERY interleaving of the read thread and the consumer at
@@ -132,3 +132,25 @@ Example C04_unordered_example :
   | None => False
   end.
 Proof. vm_compute. repeat split. Qed.
+
+(* ---- the quantities the interleaving-level theorems speak about are the consumer's real outputs ----
+   g_items (the items delivered by an iterator) grows by x exactly in the step in which next() returns the item x — in any
+   state, for both node kinds — g_recv counts the entries consumed, and no other consumer step touches either; and a
+   completed next() outside a fast-forward logs exactly that item in the user-visible log (later straight-line code only appends) *)
+Theorem C04_ghost_items_are_outputs : forall c m g,
+  let g' := fst (ConcModel.cstep c m g) in
+  match snd (ConcModel.cstep c m g) with
+  | Some (ConcModel.OutItem x) => ConcModel.g_items g' = ConcModel.g_items g ++ [x] /\ ConcModel.g_recv g' = S (ConcModel.g_recv g)
+  | Some (ConcModel.OutErr e) => ConcModel.g_items g' = ConcModel.g_items g /\
+      ConcModel.g_recv g' = (match ConcModel.g_c g with
+                             | ConcModel.CRelErr 1 _ => if ConcModel.k_pm c then S (ConcModel.g_recv g) else ConcModel.g_recv g
+                             | _ => ConcModel.g_recv g end)
+  | _ => ConcModel.g_items g' = ConcModel.g_items g /\ ConcModel.g_recv g' = ConcModel.g_recv g
+  end.
+Proof. exact ConcProg.ghost_items_are_outputs. Qed.
+Print Assumptions C04_ghost_items_are_outputs.
+
+Theorem C04_completed_next_logs_its_item : forall c x s g, ConcModel.cur s = Some g -> ConcModel.g_ff g = 0 ->
+  exists rest, ConcModel.s_obs (ConcModel.complete c (ConcModel.OutItem x) s) = ConcModel.s_obs s ++ ConcModel.ObsItem x :: rest.
+Proof. exact ConcProg.completed_next_logs_its_item. Qed.
+Print Assumptions C04_completed_next_logs_its_item.
